@@ -122,6 +122,10 @@ func genSummaryLines(r *Rng) []string {
 	if n > 1 && r.Chance(1, 6) {
 		ls[0] = "" // summary starts on the next line
 	}
+	if n > 1 && r.Chance(1, 8) {
+		// a continuation line that begins like the documented escape of the FIRST line (`\-45m`): it is ordinary text
+		ls[r.Range(1, n-1)] = r.Pick([]string{`\-5 degrees outside`, `\\-- see ticket`, `\-v and \-x`})
+	}
 	return ls
 }
 
